@@ -69,6 +69,11 @@ func HostQualified(v string) (hasHost bool, ok bool) {
 		if h == "" || strings.HasPrefix(h, ":") {
 			return false, false // "http:///x", "//:80": implementations disagree
 		}
+		if !plainAuthority(h) {
+			// an authority that is not plainly host[:port] (bad port, odd characters, IDN, percent
+			// escapes) may be a parse failure for one implementation and a host for another
+			return false, false
+		}
 		return true, true
 	}
 	if c.Scheme == "" {
@@ -82,4 +87,49 @@ func HostQualified(v string) (hasHost bool, ok bool) {
 		return false, false // "http:h": WHATWG special-scheme parsing finds a host
 	}
 	return false, true // opaque: mailto:, tel:, data: ...
+}
+
+// plainAuthority: host[:port] with an ASCII host name, IPv4 or bracketed IPv6 literal and a numeric port.
+func plainAuthority(h string) bool {
+	host, port := h, ""
+	if strings.HasPrefix(h, "[") {
+		end := strings.Index(h, "]")
+		if end < 0 {
+			return false
+		}
+		host, port = h[1:end], h[end+1:]
+		for i := 0; i < len(host); i++ {
+			c := host[i]
+			if !(c >= '0' && c <= '9' || c >= 'a' && c <= 'f' || c >= 'A' && c <= 'F' || c == ':' || c == '.') {
+				return false
+			}
+		}
+		if host == "" {
+			return false
+		}
+	} else {
+		if i := strings.LastIndex(h, ":"); i >= 0 {
+			host, port = h[:i], h[i:]
+		}
+		if host == "" {
+			return false
+		}
+		for i := 0; i < len(host); i++ {
+			c := host[i]
+			if !(c >= '0' && c <= '9' || c >= 'a' && c <= 'z' || c >= 'A' && c <= 'Z' || c == '-' || c == '.') {
+				return false
+			}
+		}
+	}
+	if port != "" {
+		if port[0] != ':' {
+			return false
+		}
+		for i := 1; i < len(port); i++ {
+			if port[i] < '0' || port[i] > '9' {
+				return false
+			}
+		}
+	}
+	return true
 }
